@@ -665,9 +665,10 @@ def find_simple_const(src: str, name: str):
     if not mm or "{" in mm.group(2):
         return None
     ty = re.sub(r"&\s*(?!')", "&'static ", mm.group(1).strip())
-    if re.search(r"[A-Za-z_]\w*\s*(?:::\s*<[^>]*>\s*)?\(", mm.group(2)):
-        # initializer CALLS a (const) function: an `exec const` lets Verus evaluate it in exec mode (its value is then opaque to the
-        # proof; a tuple / struct literal keeps the plain `const` form below, whose value the proof sees)
+    if re.search(r"(?<![A-Za-z0-9_])[a-z_]\w*\s*(?:::\s*<[^>]*>\s*)?\(", mm.group(2)):
+        # initializer CALLS a (const) function (lower-case last path segment): an `exec const` lets Verus evaluate it in exec mode (its
+        # value is then opaque to the proof); a tuple / struct literal or an enum / tuple-struct constructor (upper-case segment) keeps
+        # the plain `const` form below, whose value the proof sees
         return _line_of(src, a), "pub exec const %s: %s ensures true { %s }" % (name, ty, mm.group(2).strip())
     return _line_of(src, a), "pub const %s: %s = %s;" % (name, ty, mm.group(2).strip())
 
@@ -742,10 +743,21 @@ def find_simple_fn(src: str, name: str):
             return None
         params.append(mm.group(1))
     body = src[toks[bo].end:toks[bc].start]
-    btoks = [x for x in lex(body) if x.kind not in ("ws", "comment")]
-    if any(x.text == ";" for x in btoks) or any(x.kind == "ident" and x.text in ("let", "return", "loop", "while", "for") for x in btoks):
+    # log statements of the helper are dropped exactly as rule R2 drops them in extracted bodies
+    try:
+        body = r2_logs("{" + body + "}", {})[1:-1]
+    except ExtractError:
         return None
-    expr = " ".join(l.strip() for l in body.strip().split("\n") if not l.strip().startswith("//"))
+    btoks = [x for x in lex(body) if x.kind not in ("ws", "comment")]
+    if any(x.kind == "ident" and x.text in ("let", "return", "loop", "while", "for") for x in btoks):
+        return None
+    semis = [x for x in btoks if x.text == ";"]
+    if semis and not (len(semis) == 1 and btoks and btoks[-1].text == ";"):
+        return None
+    expr = " ".join(l.strip() for l in body.strip().split("\n") if l.strip() and not l.strip().startswith("//"))
+    if semis:
+        # a unit helper whose body is one expression statement `E;`  ->  inlined as the block `{ E; }`
+        expr = "{ " + expr + " }"
     expr = _subst_self_type(src, toks[fn_kw].start, expr)
     return params, expr
 
@@ -1238,6 +1250,32 @@ def r7_apply(src, log, map_kind="result", path_map_kind="result", map_or_kind="o
                     src = _replace(src, [(toks[s[r0]].start, toks[c2].end, rep)])
                     log["R7"] = log.get("R7", 0) + 1
                     log.setdefault("R7.fired", []).append("map_or")
+                    changed = True
+                    break
+                if meth in ("or", "and") and map_kind == "result":
+                    # Result::or(B) / Result::and(B) with an eagerly evaluated argument B (bound first, as Rust evaluates it)
+                    o2 = s[k + 2]; c2 = m[o2]
+                    argtxt = src[toks[o2].end:toks[c2].start].strip()
+                    if not argtxt or "|" in argtxt:
+                        continue
+                    j = k - 1
+                    while j >= 0:
+                        if toks[s[j]].text == ")":
+                            j = s.index(m[s[j]]) - 1
+                            continue
+                        if toks[s[j]].kind == "ident" or toks[s[j]].text == ".":
+                            j -= 1
+                            continue
+                        break
+                    r0 = j + 1
+                    recv = src[toks[s[r0]].start:t.start].strip()
+                    if meth == "or":
+                        rep = "(match (%s, %s) { (Ok(v__), _) => Ok(v__), (Err(_), b__) => b__ })" % (recv, argtxt)
+                    else:
+                        rep = "(match (%s, %s) { (Ok(_), b__) => b__, (Err(e__), _) => Err(e__) })" % (recv, argtxt)
+                    src = _replace(src, [(toks[s[r0]].start, toks[c2].end, rep)])
+                    log["R7"] = log.get("R7", 0) + 1
+                    log.setdefault("R7.fired", []).append(meth)
                     changed = True
                     break
                 if meth not in ("map", "ok_or_else", "or_else", "then", "then_some", "map_err", "ok_or", "and_then", "unwrap_or_else",
